@@ -273,6 +273,22 @@ theorem vm_run_error_exact (fuel : Nat) (s s' : St) (h : (run fuel).run s = (.er
       (Extends3 s s₁ → s'.data = s.data ∧ s'.linear = s.linear ∧ s'.addr = s.addr) :=
   run_error_exact' fuel s s' h
 
+/-- **vm_run_error_exact_of_invariant** — what a typing of states has to provide for
+exactness, and nothing more: a predicate that holds at entry, survives every instruction step
+(simple or re-entrant, whatever the outcome) and implies the frame condition. For the simple
+instructions `vm_instr_frame` reduces "survives the step" to "there is room for the need". -/
+theorem vm_run_error_exact_of_invariant (P : St → Prop) (s : St)
+    (hstep : ∀ f i s₀, P s₀ → P ((exec f i).run s₀).2) (hext : ∀ s₁, P s₁ → Extends3 s s₁)
+    (fuel : Nat) (s' : St) (hp : P s) (h : (run fuel).run s = (.error .err, s')) :
+    s'.data = s.data ∧ s'.linear = s.linear ∧ s'.addr = s.addr ∧ s'.suspended = s.suspended :=
+  run_error_exact_of_invariant P s hstep hext fuel s' hp h
+
+/-- non-vacuity of `vm_run_error_exact_of_invariant`: for an entry state with empty stacks the
+trivial predicate is such an invariant… as far as data and address stacks go the hypothesis
+`Extends3` is then automatic; here the instance with all three stacks empty -/
+example (s : St) (hd : s.data = []) (hl : s.linear = []) (ha : s.addr = []) : ∀ s₁, True → Extends3 s s₁ :=
+  fun s₁ _ => ⟨by rw [hd]; exact List.nil_suffix, by rw [hl]; exact List.nil_suffix, by rw [ha]; exact List.nil_suffix⟩
+
 /-- at the top level data and address stacks are exact for free (they are empty); the global
 scope is back at the bottom of the scope stack iff it was still there at the fault -/
 theorem vm_text_error_global_scope (fuel : Nat) (s₀ s₁ s' : St) (hl : s₀.linear = [some 0])
